@@ -101,6 +101,21 @@ pub fn storage_point(name: &'static str) -> Result<(), OperationError> {
     Ok(())
 }
 
+/// A point where the process may die but no error can be returned (after the durable COMMIT,
+/// before the in-memory publications): counted, and fatal in CRASH mode only.
+pub fn crash_point(name: &'static str) {
+    let mode = MODE.load(Ordering::Relaxed);
+    if mode == OFF {
+        return;
+    }
+    let k = SEEN.fetch_add(1, Ordering::SeqCst) + 1;
+    NAMES.lock().unwrap().push(name);
+    if mode == CRASH && k == TARGET.load(Ordering::SeqCst) {
+        eprintln!("VERIF-CRASH-AT {k} {name}");
+        std::process::abort();
+    }
+}
+
 // ------------------------------------------------------------------------ H3: pause dispatcher
 //
 // Call sites: `#[cfg(feature = "verif-hooks")] crate::verif::txn::pause("label");` between snapshot
